@@ -14,8 +14,6 @@ Proof.
   try (destruct (nsubs nd) as [|r1 [|r2 rs]]; reflexivity);
   try (destruct pk; try reflexivity; destruct (nsubs nd); reflexivity);
   try (destruct found; destruct pk; try reflexivity; destruct (nsubs nd); reflexivity).
-  - destruct (nsubs nd) as [|r1 [|r2 rs]]; try reflexivity. simpl. reflexivity.
-  - destruct (nsubs nd) as [|r1 [|r2 rs]]; try reflexivity. simpl. reflexivity.
 Qed.
 Lemma den_node_atom dn nd e : is_atom_sexp e = true -> den_node dn nd e = true -> nsubs nd = [] /\ atom_den (nhead nd) e.
 Proof.
@@ -27,3 +25,145 @@ Proof.
   all: idtac "REM".
   all: destruct (nsubs nd) as [|r1 [|r2 rs]]; try discriminate H; destruct e; try discriminate Ha; simpl in H; try discriminate H.
 Qed.
+Lemma den_node_seq dn nd a b : den_node dn nd (SSeq a b) = true ->
+  nhead nd = HSeq /\ (2 <= length (nsubs nd))%nat /\ den_seqb dn (nsubs nd) (SSeq a b) = true.
+Proof.
+  unfold den_node. intros H. destruct (nhead nd); try discriminate H;
+  try (destruct (nsubs nd) as [|r1 [|r2 rs]]; discriminate H);
+  try (destruct pk; try discriminate H; destruct (nsubs nd); discriminate H);
+  try (destruct found; destruct pk; try discriminate H; destruct (nsubs nd); discriminate H).
+  - apply andb_true_iff in H. destruct H as [H1 H2]. apply Nat.leb_le in H1. auto.
+  - apply andb_true_iff in H. destruct H as [H1 H2]. destruct (nsubs nd) as [|r1 [|r2 rs]]; simpl in H1, H2; discriminate.
+Qed.
+Lemma den_node_sor dn nd a b : den_node dn nd (SSor a b) = true ->
+  nhead nd = HSor /\ (2 <= length (nsubs nd))%nat /\ den_sorb dn (nsubs nd) (SSor a b) = true.
+Proof.
+  unfold den_node. intros H. destruct (nhead nd); try discriminate H;
+  try (destruct (nsubs nd) as [|r1 [|r2 rs]]; discriminate H);
+  try (destruct pk; try discriminate H; destruct (nsubs nd); discriminate H);
+  try (destruct found; destruct pk; try discriminate H; destruct (nsubs nd); discriminate H).
+  - apply andb_true_iff in H. destruct H as [H1 H2]. destruct (nsubs nd) as [|r1 [|r2 rs]]; simpl in H1, H2; discriminate.
+  - apply andb_true_iff in H. destruct H as [H1 H2]. apply Nat.leb_le in H1. auto.
+Qed.
+Definition un_head (e : sexp) : option (head * sexp) :=
+  match e with
+  | SStar e1 => Some (HStarPartial, e1) | SPlus e1 => Some (HPlus, e1) | SOpt e1 => Some (HPartial, e1)
+  | SAt e1 => Some (HAt, e1) | SNotAt e1 => Some (HNotAt, e1) | _ => None end.
+Lemma den_node_un dn nd e h e1 : un_head e = Some (h, e1) -> den_node dn nd e = true ->
+  exists r1, nhead nd = h /\ nsubs nd = [r1] /\ dn r1 e1 = true.
+Proof.
+  intros Hu H. unfold den_node in H.
+  destruct e; try discriminate Hu; inversion Hu; subst h e1; clear Hu;
+  (destruct (nhead nd); try discriminate H;
+   try (destruct pk; try discriminate H; destruct (nsubs nd); discriminate H);
+   try (destruct found; destruct pk; try discriminate H; destruct (nsubs nd); discriminate H);
+   try (apply andb_true_iff in H; destruct H as [H1 H2]; destruct (nsubs nd) as [|r1 [|r2 rs]]; simpl in H1, H2; discriminate);
+   destruct (nsubs nd) as [|r1 [|r2 rs]]; try discriminate H; exists r1; auto).
+Qed.
+
+Lemma TSeq_single G att vt A fam r s o x : PegT G att vt A fam r s o x -> TSeq G att vt A fam [r] s o x.
+Proof.
+  intros H. destruct x as [s1 o1 l1| |].
+  - pose proof (Ts_ok G att vt A fam r [] s o s1 o1 l1 _ H (Ts_nil G att vt A fam s1 o1)) as T. rewrite tcat_nil_r in T. exact T.
+  - apply Ts_nok; [exact H | exact I].
+  - apply Ts_nok; [exact H | exact I].
+Qed.
+Lemma TSor_single G att vt A fam r s o x : PegT G att vt A fam r s o x -> TSor G att vt A fam [r] s o x.
+Proof.
+  intros H. destruct x as [s1 o1 l1| |].
+  - apply To_stop; [exact H | discriminate].
+  - apply To_next; [exact H | apply To_nil].
+  - apply To_stop; [exact H | discriminate].
+Qed.
+Lemma TPar_single_ok G att vt A fam r s o s1 o1 l1 : PegT G att vt A fam r s o (TOk s1 o1 l1) -> TPar G att vt A fam [r] s o true (TOk s1 o1 l1).
+Proof.
+  intros H. pose proof (Tp_ok G att vt A fam r [] s o s1 o1 l1 _ _ H (Tp_nil G att vt A fam s1 o1)) as T. rewrite tcat_nil_r in T. exact T.
+Qed.
+
+Section Cons.
+Variable G : grammar.
+Variable g : sgrammar.
+Variable names : list rid.
+Variable att : nat -> skind.
+Variable vt : nat -> N -> N -> bool.
+Variable attT : nat -> rid -> skind.
+Variable vtT : nat -> rid -> N -> N -> bool.
+Variable fam : nat.
+Notation nm := (nm_of G names).
+Hypothesis Hanon : forall r, anon names r = true -> attT fam r = KNone.
+Hypothesis Hatt : forall k, (k < length g)%nat -> attT fam (nm k) = att k.
+Hypothesis Hvt : forall k b e, (k < length g)%nat -> vtT fam (nm k) b e = vt k b e.
+Hypothesis Hdefs : forall k e, nth_error g k = Some e ->
+  not_ref e = true /\ exists n nd, nth_error G (nm k) = Some nd /\ den_node (adenb G g names n) nd e = true.
+
+Definition labT (x : pact) : tact := match x with (k, sp, b, e) => (nm k, sp, b, e) end.
+Definition liftT (x : pres) : tres := match x with Some (s', o', l) => TOk s' o' (map labT l) | None => TFail end.
+Notation PT2 := (PegT G attT vtT).
+Notation dnb := (adenb G g names).
+
+Lemma liftT_atom s o r : liftT (ret_atom s o r) = tatom s o r.
+Proof. destruct r; reflexivity. Qed.
+Lemma liftT_cat l1 r : tcat (map labT l1) (liftT r) = liftT (match r with Some (s2, o2, l2) => Some (s2, o2, l1 ++ l2) | None => None end).
+Proof. destruct r as [[[s2 o2] l2]|]; simpl; [rewrite map_app|]; reflexivity. Qed.
+
+(* what a derivation of e gives for every table object that denotes e *)
+Record Q (A : bool) (e : sexp) (s : list byte) (o : N) (x : pres) : Prop := mkQ {
+  q_body : forall n nd, den_node (dnb n) nd e = true -> TBody G attT vtT A fam (nhead nd) (nsubs nd) s o (liftT x);
+  q_node : forall n r, dnb n r e = true -> PT2 A fam r s o (liftT x);
+  q_seq : forall n r r2 rs, den_seqb (dnb n) (r :: r2 :: rs) e = true -> TSeq G attT vtT A fam (r :: r2 :: rs) s o (liftT x);
+  q_sor : forall n r r2 rs, den_sorb (dnb n) (r :: r2 :: rs) e = true -> TSor G attT vtT A fam (r :: r2 :: rs) s o (liftT x);
+  q_star : forall e1, e = SStar e1 -> forall n r1, dnb n r1 e1 = true -> TStar G attT vtT A fam [r1] s o (liftT x)
+}.
+
+Lemma node_of_body A e s o x : not_ref e = true ->
+  (forall n nd, den_node (dnb n) nd e = true -> TBody G attT vtT A fam (nhead nd) (nsubs nd) s o (liftT x)) ->
+  forall n r, dnb n r e = true -> PT2 A fam r s o (liftT x).
+Proof.
+  intros Hr Hb n r H. destruct n as [|n]; [discriminate H|].
+  destruct (adenb_nonref G g names n r e Hr H) as [Han [nd [Hn Hd]]].
+  pose proof (T_node G attT vtT A fam r nd s o _ Hn (Hb n nd Hd)) as T.
+  rewrite (twrap_none attT vtT A fam r o _ (Hanon r Han)) in T. exact T.
+Qed.
+Lemma Q_seq_full A e s o x : Q A e s o x -> forall n rs, rs <> [] -> den_seqb (dnb n) rs e = true -> TSeq G attT vtT A fam rs s o (liftT x).
+Proof.
+  intros HQ n rs Hne H. destruct rs as [|r [|r2 rs']]; [congruence | | exact (q_seq _ _ _ _ _ HQ n r r2 rs' H)].
+  simpl in H. apply TSeq_single. exact (q_node _ _ _ _ _ HQ n r H).
+Qed.
+Lemma Q_sor_full A e s o x : Q A e s o x -> forall n rs, rs <> [] -> den_sorb (dnb n) rs e = true -> TSor G attT vtT A fam rs s o (liftT x).
+Proof.
+  intros HQ n rs Hne H. destruct rs as [|r [|r2 rs']]; [congruence | | exact (q_sor _ _ _ _ _ HQ n r r2 rs' H)].
+  simpl in H. apply TSor_single. exact (q_node _ _ _ _ _ HQ n r H).
+Qed.
+
+(* expressions that are neither seq nor sor nor star: the list / star components are vacuous *)
+Lemma mkQ_simple A e s o x : not_ref e = true ->
+  (forall a b, e <> SSeq a b) -> (forall a b, e <> SSor a b) -> (forall e1, e <> SStar e1) ->
+  (forall n nd, den_node (dnb n) nd e = true -> TBody G attT vtT A fam (nhead nd) (nsubs nd) s o (liftT x)) -> Q A e s o x.
+Proof.
+  intros Hr H1 H2 H3 Hb. split.
+  - exact Hb.
+  - apply node_of_body; assumption.
+  - intros n r r2 rs H. cbn [den_seqb] in H. destruct e; try discriminate H. exfalso. eapply H1; reflexivity.
+  - intros n r r2 rs H. cbn [den_sorb] in H. destruct e; try discriminate H. exfalso. eapply H2; reflexivity.
+  - intros e1 E. exfalso. eapply H3; exact E.
+Qed.
+Lemma Q_atom A e s o r : is_atom_sexp e = true -> Peg [] e s r -> Q A e s o (ret_atom s o r).
+Proof.
+  intros Ha Hp. apply mkQ_simple; try (destruct e; try discriminate Ha; try reflexivity; intros; discriminate).
+  intros n nd Hd. destruct (den_node_atom _ _ _ Ha Hd) as [Hs Hden]. rewrite Hs, liftT_atom.
+  exact (B_atom G attT vtT A fam (nhead nd) e s o r Hden Hp).
+Qed.
+
+Theorem conservative A e s o x : PegA g att vt A e s o x -> Q A e s o x.
+Proof.
+  induction 1.
+  - apply Q_atom; [reflexivity | apply P_any].
+  - apply Q_atom; [reflexivity | apply P_one].
+  - apply Q_atom; [reflexivity | apply P_not_one].
+  - apply Q_atom; [reflexivity | apply P_range].
+  - apply Q_atom; [reflexivity | apply P_string].
+  - apply Q_atom; [reflexivity | apply P_eof].
+  - change (Some (s, o, [])) with (ret_atom s o (Some s)) at 1. admit_x.
+  - admit_x.
+Abort.
+End Cons.
